@@ -222,6 +222,9 @@ func runC19d(t *testing.T) func(c c19dCase, st *verifkit.Stats) *verifkit.Failur
 					id = uint32(r.PathID)
 				}
 				m := rsAnnounce(p, r.V6, r.Prefix, id, c19dAttrs(p, r, serial))
+				if c.NoAS4[r.Src] {
+					m = rs2ByteAS(m)
+				}
 				_ = sess[r.Src].send(m, txOpt(r.Src))
 				return m
 			}
@@ -353,8 +356,8 @@ func runC19d(t *testing.T) func(c c19dCase, st *verifkit.Stats) *verifkit.Failur
 				if mp.PeerIpAddress.String() != p.Addr || mp.PeerAS != p.AS || mp.LocalAS != rsLocalAS {
 					return verifkit.Failf("mrt-updates-peer", "record %d: peer %s AS %d local AS %d; sent by %s AS %d to AS %d", i, mp.PeerIpAddress, mp.PeerAS, mp.LocalAS, p.Addr, p.AS, rsLocalAS)
 				}
-				if got := fmt.Sprintf("%x", mp.BGPMessagePayload); got != sentL[i].raw && mp.BGPMessage == nil {
-					return verifkit.Failf("mrt-updates-payload", "record %d: payload %s, sent %s", i, got, sentL[i].raw)
+				if mp.BGPMessage == nil {
+					return verifkit.Failf("mrt-updates-payload", "record %d (sub-type %v): the embedded message does not parse under the sub-type's meaning; payload %x, sent %s", i, rec.Header.SubType, mp.BGPMessagePayload, sentL[i].raw)
 				}
 				// the parsed message (decoded under the sub-type's options) is the one that was sent
 				if mp.BGPMessage != nil {
